@@ -17,7 +17,9 @@ RULE = ("histories of reads/writes (byte/half/word/doubleword; TOY: 1/2/4 cells)
         "clusters around both ends of the valid range, 0, negative, >=2^32 and random addresses; executed against "
         "the real Memory and a reference cell store, compared after every operation plus a final scan. "
         "non-trivial = some read overlaps cells written by >=2 earlier writes of different widths, or an access "
-        "touches a cell within 8 of either end of the valid range (incl. rejected ones); distinct = hash(history)")
+        "touches a cell within 8 of either end of the valid range (incl. rejected ones); distinct = hash(history) "
+        "Histories have back-references (repeat an earlier read; writes at/inside/just before its span, through aliases) and reset(). "
+        "Small scope, exhaustively: ALL operation sequences up to the stated length over a window alphabet at both ends of both memories.")
 ASSUMPTIONS = [
     "values are passed as fixedint values of the access width, as every caller in the repository does",
     "cells of a write that is only partly inside the valid range are unspecified: the reference re-reads them",
@@ -232,15 +234,63 @@ def corpus():
     ]
 
 
+WINDOWS = [("riscv", B), ("riscv", T - 2), ("riscv", -2), ("riscv", B + T + 6), ("toy", 4094), ("toy", 0)]
+
+
+def _alphabet(kind, base, reduced):
+    """Operations of the small-scope enumeration around one window: every width at every offset, as write (distinct
+    non-zero cells), zeroing write and read, plus reset()."""
+    offs = [-1, 0, 1, 3] if reduced else [-1, 0, 1, 2, 3]
+    widths = [1, 2, 4] if kind == "toy" else ([1, 4] if reduced else [1, 2, 4])
+    ops = [["z"]]
+    for o in offs:
+        for n in widths:
+            ops.append(["w", n, base + o, None])
+            ops.append(["r", n, base + o])
+        ops.append(["w", widths[-1], base + o, 0])
+        if not reduced and kind == "riscv":
+            ops.append(["r", 8, base + o])
+    return ops
+
+
+def exhaustive_cases(length, reduced, part, parts):
+    import itertools
+    k = 0
+    for kind, base in WINDOWS:
+        cb = 1 if kind == "riscv" else 2
+        alpha = _alphabet(kind, base, reduced)
+        for seq in itertools.product(range(len(alpha)), repeat=length):
+            k += 1
+            if k % parts != part:
+                continue
+            ops = []
+            for i, j in enumerate(seq):
+                op = list(alpha[j])
+                if op[0] == "w" and op[3] is None:   # every cell of every write distinct and non-zero
+                    op[3] = int.from_bytes(bytes(((i + 1) << 4) | (c + 1) for c in range(op[1] * cb)), "little")
+                ops.append(op)
+            yield {"kind": kind, "ops": ops}
+
+
 def shards(tier, seed):
     if tier == "quick":
-        return [{"kind": k, "n": 700, "ops": 40, "seed": seed * 1000 + i} for i, k in enumerate(["riscv", "toy", "riscv", "toy"])]
+        return ([{"kind": k, "n": 700, "ops": 40, "seed": seed * 1000 + i} for i, k in enumerate(["riscv", "toy", "riscv", "toy"])]
+                + [{"what": "exh", "length": 3, "reduced": True, "part": i, "parts": 4} for i in range(4)])
     items = []
     for i in range(16):
         items.append({"kind": "riscv" if i % 4 else "toy", "n": 4000, "ops": 60, "seed": seed * 1000 + i})
+    items += [{"what": "exh", "length": 3, "reduced": False, "part": i, "parts": 16} for i in range(16)]
+    items += [{"what": "exh", "length": 4, "reduced": True, "part": i, "parts": 32} for i in range(32)]
     return items
 
 
 def run_shard(item, stats):
+    if item.get("what") == "exh":
+        core.run_cases(exhaustive_cases(item["length"], item["reduced"], item["part"], item["parts"]), check, stats,
+                       core.known_matcher(ID, globals().get("known_match")), distinct=True)
+        stats.exhaustive_parts.append(f"all operation sequences of length <= {item['length']} over the {'reduced' if item['reduced'] else 'full'} window alphabet "
+                                      f"(write / zeroing write / read of every width at offsets -1..3, reset) at {len(WINDOWS)} windows "
+                                      "(both ends of the RISC-V range incl. negative and +2^32 spellings, both ends of the TOY memory)")
+        return
     core.hyp_search(strategy(item["kind"], item["ops"]), check, stats, item["n"], item["seed"],
                     core.known_matcher(ID, globals().get("known_match")))
